@@ -23,11 +23,15 @@ integers: the sum statements are about the mathematical sums; what Go's int64 ma
 The fetch goroutines finish in any order; the model processes upstreams in list order and the
 `_order` theorems show that what is claimed does not depend on that order.
 
-`Fixes.all` is the tree with all seven guards: the six committed to /repo (F4, null array elements, missing
-latency member, channel not found, `nilPct` = F53 / commit 905ac51, `clearNodes` = F54 / commit 786fd8f) and one that
-is proposed (`inactiveErrs` = fixes/F58: `GET /api/topics?inactive=true` throws the errors of its per-topic fetches
-away — until the integrator commits it this is the open known finding `view:inactive-drops-errors`). The `*_without_*`
-theorems are the Lean witnesses that the unguarded code misbehaves (each replayed on the real code by the check).
+`Fixes.tree` is the tree as committed: the six guards in /repo (F4, null array elements, missing latency member, channel
+not found, `nilPct` = F53 / commit 905ac51, `clearNodes` = F54 / commit 786fd8f) and NOT `inactiveErrs` = F58
+(`GET /api/topics?inactive=true` throws the errors of its per-topic fetches away): F58 was committed as 783e91a and
+REVERTED by 338c8a6 — it turned nsqlookupd's ordinary `404 TOPIC_NOT_FOUND` (topic unknown to that lookupd) into permanent
+warnings and, with a single nsqlookupd, into a 502 of the whole listing (found by the fix review). The finding
+`view:inactive-drops-errors` is open again (`inactive_drops_errors_this_tree`, replayed on every run); `Fixes.all` =
+`Fixes.tree` + that switch is kept as the documented proposal (`inactive_warning`, `inactive_view_lists` are theorems about
+it). Every other theorem stated for `Fixes.all` does not look at `inactiveErrs` (only `topicsInactiveView` does). The
+`*_without_*` theorems are the Lean witnesses that the unguarded code misbehaves (each replayed on the real code by the check).
 One clause of the property is false of the code *and* of `Fixes.all`: "502 only when none answers" with
 zero known producers (`only_502_when_something_failed_false`, open finding, no patch).
 
@@ -982,11 +986,12 @@ example : (match topicView Fixes.all
     | .ok { body := .topic t, .. } => shown t.cnt.depth
     | _ => 0) = -9223372036854775808 := by decide
 
-/-! ## `/api/topics?inactive=true` (audit round 7, C25; `fixes/F58`)
+/-! ## `/api/topics?inactive=true` (audit round 7, C25; `fixes/F58` — committed 783e91a, reverted 338c8a6: a proposal again)
 
 With `?inactive=true` topicsHandler asks, for every topic of the list, every nsqlookupd for the producers
 (`/lookup?topic=`) and — for a topic without producers — for the channels (`/channels?topic=`). The unchanged code
-throws both errors away. `Fixes.inactiveErrs` is the repaired handler (partial error → warning, total → 502). -/
+throws both errors away (`Fixes.tree`; tie `Tie.AdminAgg.topics_inactive_discards_errors`). `Fixes.inactiveErrs` is the
+handler as F58 proposed it (partial error → warning, total → 502) — not in /repo. -/
 
 def inaP : ProducerJSON := pj "h" "N0" "N0:4150" "r"
 /-- Two nsqlookupds list `t1`. L0 knows no producer of it; L1 — the one that would know one — fails `/lookup?topic=t1`. -/
@@ -1057,7 +1062,14 @@ theorem inactive_warning_false_without_F58 : ¬ inactive_warning_for { Fixes.all
     rw [hw.2] at this
     cases this
 
-/-- **partial_warning (`/api/topics?inactive=true`), with F58.** -/
+/-- **THIS tree** (`Fixes.tree`, the model the driver replays): the defect, stated for the committed shape. -/
+theorem inactive_drops_errors_this_tree :
+    statusWarn (view Fixes.tree inactiveWorld .topicsInactive) = (200, false) ∧
+    statusWarn (view Fixes.tree inactiveWorldTotal .topicsInactive) = (200, false) ∧
+    ¬ inactive_warning_for Fixes.tree :=
+  ⟨inactive_drops_errors_without_F58.1, inactive_drops_errors_without_F58.2.1, inactive_warning_false_without_F58⟩
+
+/-- **partial_warning (`/api/topics?inactive=true`), with the PROPOSAL F58** (reverted in /repo; see the file header). -/
 theorem inactive_warning : inactive_warning_for Fixes.all := by
   intro w v ts f hl hv h200 hts hex
   have hne : w.lookupds.isEmpty = false := by
